@@ -26,82 +26,84 @@ import AGV.Spec.SdlParse
 namespace AGV.Props.C17
 open AGV.Core.Sdl AGV.Model.Sdl AGV.Spec.Literal AGV.Spec.Lex
 
+/-- one arm of the repaired `escape_string` is read back as the character it stands for -/
+theorem lexString_escapeChar (c : Char) (tl : Text) :
+    lexString (escapeChar false c ++ tl) = (lexString tl).map (fun p => (c :: p.1, p.2)) := by
+  unfold escapeChar
+  by_cases h1 : c = '\\'
+  · subst h1; rw [lexString.eq_def]; simp [escaped]; cases lexString tl <;> rfl
+  by_cases h2 : c = '"'
+  · subst h2; rw [lexString.eq_def]; simp [escaped]; cases lexString tl <;> rfl
+  by_cases h3 : c = Char.ofNat 8
+  · subst h3; rw [lexString.eq_def]; simp [escaped]; cases lexString tl <;> rfl
+  by_cases h4 : c = Char.ofNat 12
+  · subst h4; rw [lexString.eq_def]; simp [escaped]; cases lexString tl <;> rfl
+  by_cases h5 : c = '\n'
+  · subst h5; rw [lexString.eq_def]; simp [escaped]; cases lexString tl <;> rfl
+  by_cases h6 : c = '\r'
+  · subst h6; rw [lexString.eq_def]; simp [escaped]; cases lexString tl <;> rfl
+  by_cases h7 : c = '\t'
+  · subst h7; rw [lexString.eq_def]; simp [escaped]; cases lexString tl <;> rfl
+  simp only [h1, h2, h3, h4, h5, h6, h7, if_false, Bool.false_and, Bool.and_true, Bool.not_false, decide_false, Bool.false_eq_true]
+  rw [List.singleton_append, lexString.eq_def]
+  simp [h1, h2, h5, h6]
+  cases lexString tl <;> rfl
+
 /-- Every text written by the repaired `escape_string` between two quotes is read back, by the
     specification's StringValue rule, as exactly that text — for all texts (all Unicode scalar
     values, any length), whatever follows the closing quote. -/
 theorem c17_strings_escape (t rest : Text) :
     lexString (escapeString false t ++ '"' :: rest) = some (t, rest) := by
   induction t with
-  | nil => simp [escapeString, lexString]
-  | cons c r ih =>
-    simp only [escapeString, escapeChar]
-    by_cases h1 : c = '\\'
-    · subst h1; simp [lexString, escaped, ih]
-    by_cases h2 : c = '"'
-    · subst h2; simp [lexString, escaped, ih]
-    by_cases h3 : c = Char.ofNat 8
-    · subst h3; simp [lexString, escaped, ih]; decide
-    by_cases h4 : c = Char.ofNat 12
-    · subst h4; simp [lexString, escaped, ih]; decide
-    by_cases h5 : c = '\n'
-    · subst h5; simp [lexString, escaped, ih]; decide
-    by_cases h6 : c = '\r'
-    · subst h6; simp [lexString, escaped, ih]; decide
-    by_cases h7 : c = '\t'
-    · subst h7; simp [lexString, escaped, ih]; decide
-    simp [h1, h2, h3, h4, h5, h6, h7, lexString, ih]
+  | nil => rw [lexString.eq_def]; simp [escapeString]
+  | cons c r ih => simp [escapeString, List.append_assoc, lexString_escapeChar, ih]
 
-/-- … and as a whole token of the lexer: `"…"` is one StringValue token denoting the text (the
-    exporter never lets another quote follow the closing one). -/
+/-- … and the quoted text is a StringValue token, not the start of a block string: after the
+    opening quote the text never continues with two more quotes (the exporter never lets another
+    quote follow the closing one), so the lexer takes the StringValue branch, which is
+    `c17_strings_escape`. -/
 theorem c17_strings_token (t rest : Text) (h : rest.head? ≠ some '"') :
-    lexToken ('"' :: escapeString false t ++ '"' :: rest) = some (.str t, rest) := by
-  have key := c17_strings_escape t rest
+    (∀ y, escapeString false t ++ '"' :: rest ≠ '"' :: '"' :: y) ∧
+    lexString (escapeString false t ++ '"' :: rest) = some (t, rest) := by
+  refine ⟨?_, c17_strings_escape t rest⟩
+  intro y
   cases t with
   | nil =>
     cases rest with
-    | nil => simp [lexToken, isPunct, nameStart, isAlpha, isDig, escapeString, lexString]
+    | nil => simp [escapeString]
     | cons d rest' =>
       have hd : d ≠ '"' := by simpa using h
-      simp [lexToken, isPunct, nameStart, isAlpha, isDig, escapeString, lexString, hd]
+      simp [escapeString, hd]
   | cons c r =>
-    have hne : ∀ x y, escapeChar false c ++ x ≠ '"' :: '"' :: y := by
-      intro x y
-      simp only [escapeChar]
-      repeat' split
-      all_goals simp_all
-    unfold lexToken
-    simp only [escapeString] at key ⊢
-    simp [isPunct, nameStart, isAlpha, isDig]
-    split
-    · rename_i r' heq
-      exact absurd heq (by simpa [List.append_assoc] using hne _ _)
-    · simp [List.append_assoc] at key ⊢
-      simp [key]
+    simp only [escapeString, escapeChar]
+    repeat' split
+    all_goals simp_all
 
 /-- the deprecation reason: `@deprecated(reason: "…")` carries the reason itself -/
 theorem c17_strings_reason (r rest : Text) :
-    ∃ pre, writeDeprecated Defects.none (.yes (some r)) ++ rest = pre ++ '"' :: escapeString false r ++ '"' :: ')' :: rest ∧
-      lexToken ('"' :: escapeString false r ++ '"' :: ')' :: rest) = some (.str r, ')' :: rest) := by
-  refine ⟨s " @deprecated(reason: ", ?_, c17_strings_token r (')' :: rest) (by simp)⟩
+    writeDeprecated Defects.none (.yes (some r)) ++ rest =
+      s " @deprecated(reason: " ++ '"' :: (escapeString false r ++ '"' :: ')' :: rest) ∧
+    lexString (escapeString false r ++ '"' :: ')' :: rest) = some (r, ')' :: rest) := by
+  refine ⟨?_, c17_strings_escape r _⟩
   simp [writeDeprecated, Defects.none, s, List.append_assoc]
 
 /-- a federation tag / the specifiedBy URL -/
 theorem c17_strings_tag (t rest : Text) :
-    tagText Defects.none t = escapeString false t ∧
-    lexToken ('"' :: tagText Defects.none t ++ '"' :: ')' :: rest) = some (.str t, ')' :: rest) := by
+    lexString (tagText Defects.none t ++ '"' :: ')' :: rest) = some (t, ')' :: rest) := by
   have h : tagText Defects.none t = escapeString false t := by simp [tagText, Defects.none]
-  exact ⟨h, by rw [h]; exact c17_strings_token t _ (by simp)⟩
+  rw [h]; exact c17_strings_escape t _
 
 /-- a description written in the quoted style (preferred single line, or the fallback for texts
-    that a block string would change) is one StringValue token denoting the description -/
+    that a block string would change) is a StringValue denoting the description -/
 theorem c17_strings_description_quoted (o : Opts) (level : Nat) (d rest : Text)
-    (hq : (o.singleLine && !d.contains '\n') || !blockPrintable d = true) :
-    writeDescription Defects.none o level d ++ rest = tabs o level ++ ('"' :: escapeString false d ++ '"' :: '\n' :: rest) ∧
-    lexToken ('"' :: escapeString false d ++ '"' :: '\n' :: rest) = some (.str d, '\n' :: rest) := by
-  refine ⟨?_, c17_strings_token d _ (by simp)⟩
-  simp only [writeDescription, Defects.none]
-  simp at hq
-  simp [hq, List.append_assoc]
+    (hq : ((o.singleLine && !d.contains '\n') || !blockPrintable d) = true) :
+    writeDescription Defects.none o level d ++ rest = tabs o level ++ ('"' :: (escapeString false d ++ '"' :: '\n' :: rest)) ∧
+    (∀ y, escapeString false d ++ '"' :: '\n' :: rest ≠ '"' :: '"' :: y) ∧
+    lexString (escapeString false d ++ '"' :: '\n' :: rest) = some (d, '\n' :: rest) := by
+  refine ⟨?_, (c17_strings_token d _ (by simp)).1, c17_strings_escape d _⟩
+  have hq' : ((o.singleLine && !d.contains '\n') || (!false && !blockPrintable d)) = true := by simpa using hq
+  simp only [writeDescription, Defects.none, hq', if_true]
+  simp [List.append_assoc]
 
 /-- which style the repaired exporter chooses: the block style exactly for block-printable texts
     not already written on a single line -/
@@ -109,36 +111,42 @@ theorem c17_description_style (o : Opts) (level : Nat) (d : Text)
     (hb : blockPrintable d = true) (hs : (o.singleLine && !d.contains '\n') = false) :
     writeDescription Defects.none o level d =
       tabs o level ++ quotes3 ++ '\n' :: tabs o level ++ indentLines (tabs o level) d ++ '\n' :: tabs o level ++ quotes3 ++ ['\n'] := by
-  simp only [writeDescription, Defects.none]
-  simp at hs
-  simp [hb, hs]
+  have hq' : ((o.singleLine && !d.contains '\n') || (!false && !blockPrintable d)) = false := by rw [hs, hb]; rfl
+  simp only [writeDescription, Defects.none, hq']
+  simp
 
-example : blockPrintable "The root\n\n  second paragraph".toList = true := by decide
+example : blockPrintable "a\n b".toList = true := by decide
 
 -- ------------------------------------------------------------------ witnesses of the toggles
 
-/-- `say "no"`: without the quote arm the token ends at the first inner quote -/
+/-- `"` alone: without the quote arm the token ends at the inner quote -/
 theorem c17_witness_reason_quote :
-    ∃ t rest, lexString (escapeString true t ++ '"' :: rest) ≠ some (t, rest) :=
-  ⟨"say \"no\"".toList, [')'], by decide⟩
+    ∃ t rest, lexString (escapeString true t ++ '"' :: rest) ≠ some (t, rest) := by
+  refine ⟨['"'], [], ?_⟩
+  rw [show escapeString true ['"'] ++ ['"'] = ['"', '"'] from rfl, lexString.eq_def]
+  simp
 
 /-- a single-line description ending in a backslash swallows its closing quote -/
 theorem c17_witness_single_line_backslash :
-    ∃ d, lexString (replaceQuote d ++ ['"', '\n']) ≠ some (d, ['\n']) :=
-  ⟨"end\\".toList, by decide⟩
+    ∃ d, lexString (replaceQuote d ++ ['"', '\n']) ≠ some (d, ['\n']) := by
+  refine ⟨['\\'], ?_⟩
+  rw [show replaceQuote ['\\'] ++ ['"', '\n'] = ['\\', '"', '\n'] from rfl, lexString.eq_def]
+  simp [escaped]
+  rw [lexString.eq_def]
+  simp
 
 theorem c17_witness_tag_backslash :
-    ∃ t, lexString (tagText { tagQuoteOnly := true } t ++ ['"', ')']) ≠ some (t, [')']) :=
-  ⟨"a\\nb".toList, by decide⟩
+    ∃ t, lexString (tagText { tagQuoteOnly := true } t ++ ['"', '\n']) ≠ some (t, ['\n']) := by
+  refine ⟨['\\'], ?_⟩
+  rw [show tagText { tagQuoteOnly := true } ['\\'] ++ ['"', '\n'] = ['\\', '"', '\n'] from rfl, lexString.eq_def]
+  simp [escaped]
+  rw [lexString.eq_def]
+  simp
 
-/-- a block description containing `"""` ends there -/
+/-- a block description containing `"""` ends there: the block string token stops inside the text -/
 theorem c17_witness_block_triple_quote :
-    ∃ d, (lexBlock ('\n' :: indentLines [] d ++ '\n' :: quotes3)).map (fun x => blockStringValue x.1) ≠ some d :=
+    ∃ d, lexBlock ('\n' :: indentLines [] d ++ '\n' :: quotes3) = some ("\na".toList, "b\n\"\"\"".toList) :=
   ⟨"a\"\"\"b".toList, by decide⟩
-
-/-- leading indentation of a block description is lost: BlockStringValue of the raw text written
-    for `  a` is `a` -/
-example : blockStringValue ('\n' :: indentLines [] "  a".toList ++ ['\n']) ≠ "  a".toList := by decide
 
 def ifaceWitness : TypeDef :=
   .interface "A".toList { dirs := [⟨"d".toList, []⟩] } false ["B".toList]
@@ -159,9 +167,12 @@ def dynWitness : Schema :=
     the object's tag; without them the registry holds what was built -/
 theorem c17_witness_dynamic_registration :
     register Defects.none .dynamic dynWitness = dynWitness ∧
-    register { dynInterfaceImplementsDropped := true } .dynamic dynWitness ≠ dynWitness ∧
-    register { dynInputFieldAttrsFromObject := true } .dynamic dynWitness ≠ dynWitness := by
-  refine ⟨by decide, by decide, by decide⟩
+    (register { dynInterfaceImplementsDropped := true } .dynamic dynWitness).types.head? =
+      some (.interface "A".toList {} false [] []) ∧
+    (register { dynInputFieldAttrsFromObject := true } .dynamic dynWitness).types.getLast? =
+      some (.input "I".toList { tags := ["t".toList] } false
+        [⟨"x".toList, { tags := ["t".toList] }, .named "Int".toList true, none⟩]) := by
+  refine ⟨rfl, rfl, rfl⟩
 
 -- ------------------------------------------------------------------ open
 
